@@ -51,6 +51,15 @@ def cases(ctx):
         yield {"kind": "kf-reg-across-flush"}
         yield {"kind": "kf-remeasure"}
         yield {"kind": "kf-mreg-recycled"}
+        # a loop whose bound is a value the host read after an earlier flush (the resolved Future itself is passed as `stop`)
+        for n_ in (0, 1, 3, 4):
+            for step in (1, 2, 3):
+                for form in ("ctx", "cb"):
+                    yield {"kind": "prog", "script": [], "prog": [
+                        {"op": "array", "name": "a1", "init": [n_, 0, 7]}, {"op": "flush"},
+                        {"op": "loop", "var": "i1", "start": 0, "stop": n_, "stop_from": {"array": "a1", "idx": 0}, "step": step, "form": form,
+                         "body": [{"op": "add", "target": {"kind": "entry", "array": "a1", "idx": 1}, "other": 1, "mod": None}]},
+                        {"op": "add", "target": {"kind": "entry", "array": "a1", "idx": 2}, "other": 1, "mod": None}]}
         # every add form on both kinds of target with the operands 0 and 1, with and without a modulus that the value already
         # exceeds (adding 0 modulo m still reduces), in one and in two flush segments
         for kind in ("reg", "entry"):
